@@ -159,6 +159,20 @@ def one_validate(seed, i, res):
     leave_traceback = rng.random() < 0.15
     rejected = False
     sig = None
+    if rng.random() < 0.25:
+        # earlier life of the same logger: some conforming messages, a successful validate(), then reset()
+        # (whatever validate() remembered must not outlive the reset)
+        pre = MessageType("c14:pre", [Field.for_types("n", [int], "")], "")
+        with warnings.catch_warnings():
+            warnings.simplefilter("ignore")
+            for k in range(rng.randint(1, 5)):
+                pre(n=k).write(logger)
+        try:
+            logger.validate()
+        except BaseException as e:
+            problems.append("validate() rejected conforming prelude messages: %r" % (e,))
+        logger.reset()
+        res["counters"]["validate_reset_preludes"] = res["counters"].get("validate_reset_preludes", 0) + 1
     for j in range(nmsgs):
         mkind = rng.choice(MSG_KINDS)
         keys = rng.sample(gen.IDENT_KEYS, rng.randint(1, 3))
